@@ -32,6 +32,7 @@ usage: python -m xv.impl.c12x_hist_worker <in.json> <out.json>     (same protoco
 import json
 import os
 import shutil
+import signal
 import sys
 import tempfile
 import traceback
@@ -229,10 +230,16 @@ def run_hist(mod, lib, case, root, canon, datadir):
                     content = json.loads((jp / "params.json").read_text())
                     content["data"] = {"type": "python", "value": content["objects"][-1]["id"]}
                     loaded = from_state_dict(content, jp)
+                    rec["stats"]["param_file_via"] = "from_state_dict"
                 except Exception as e2:
                     mon("hist:param-file", f"{label}: the task parameter file could not be loaded back: {type(e2).__name__}: {str(e2)[:200]}", {"step": si})
                     continue
-            got = xvlog.describe(loaded, lambda o: dict(o.__xpm__.values))
+            # a data path of the parameter file is resolved against the job folder: compared as the file it denotes
+            def values_fn(o):
+                args = o.__xpmtype__.arguments
+                return {n: ((jp / v) if args[n].is_data and isinstance(v, Path) else v) for n, v in o.__xpm__.values.items()}
+            got = xvlog.describe(loaded, values_fn)
+            want = xvlog.describe(rootobj, values_fn)
             diffs = []
             if got == want:
                 # meta flags, pre-tasks, init tasks and sharing; not the `task` link (submit() makes a submitted task its own producer)
@@ -264,7 +271,19 @@ def history_line(case):
     return " -> ".join(out)
 
 
+CASE_TIMEOUT = 600      # seconds for one history (normally 1-4 s): a case that takes longer is dropped, never reported
+
+
+class CaseTimeout(BaseException):
+    pass
+
+
+def _on_alarm(signum, frame):
+    raise CaseTimeout("the history did not finish within %d s" % CASE_TIMEOUT)
+
+
 def main():
+    signal.signal(signal.SIGALRM, _on_alarm)
     data = json.loads(Path(sys.argv[1]).read_text())
     root = Path(tempfile.mkdtemp(prefix="xvhist-"))
     datadir = root / "data"
@@ -278,6 +297,7 @@ def main():
             mod, lib = mods[case["lib"]], data["libs"][case["lib"]]
             canon = S.Canon(datadir)
             try:
+                signal.alarm(CASE_TIMEOUT)
                 rec = run_hist(mod, lib, case, root, canon, datadir)
                 if any(m["key"] in ENVIRONMENTAL for m in rec["monitors"]):
                     # a job that did not run / did not finish may be the machine's doing: the history is played once more on a
@@ -286,7 +306,11 @@ def main():
                     again["stats"]["retried"] = True
                     rec = again
                 rec["error"] = None
-            except Exception as e:
+                signal.alarm(0)
+            except BaseException as e:
+                signal.alarm(0)
+                if not isinstance(e, (Exception, CaseTimeout)):
+                    raise
                 rec = {"lines": [], "impl": [], "monitors": [], "stats": {}, "steps": [], "error": f"{type(e).__name__}: {e}",
                        "trace": traceback.format_exc()[-2500:]}
             out.append(rec)
